@@ -568,3 +568,23 @@ Proof.
       rewrite (Hnf Hne). simpl. rewrite Hamt. reflexivity.
   - subst c1. exact Hcold.
 Qed.
+
+(* ------------------------------------------------------------------------------------------ *)
+(* the WITHDRAW_REWARD transaction                                                              *)
+Lemma withdraw_tx_negative value bal wd pool : value < 0 -> withdraw_tx value bal wd pool = (false, bal, wd).
+Proof. intros H. unfold withdraw_tx. destruct (value <? 0) eqn:E; [reflexivity|]. apply Z.ltb_ge in E. lia. Qed.
+
+Lemma wrap64_small z : - 2^63 <= z < 2^63 -> wrap64 z = z.
+Proof. intros H. unfold wrap64. rewrite Z.mod_small; lia. Qed.
+
+Lemma withdraw_tx_in_range value bal wd pool bal' wd' : 0 <= value < 2^63 ->
+  withdraw_tx value bal wd pool = (true, bal', wd') ->
+  let a := value * UNIT in
+  0 <= a <= bal /\ a <= pool /\ bal' = bal - a /\ wd' = wd + a.
+Proof.
+  intros Hv. unfold withdraw_tx. destruct (value <? 0) eqn:E; [discriminate|].
+  rewrite wrap64_small by lia.
+  destruct ((bal - value * UNIT <? 0) || (pool - value * UNIT <? 0)) eqn:E2; [discriminate|].
+  apply orb_false_iff in E2 as [E3 E4]. apply Z.ltb_ge in E3, E4.
+  intros H. injection H as <- <-. simpl. unfold UNIT in *. lia.
+Qed.
